@@ -1,6 +1,9 @@
 import RulesModel.Tie.Common
+import RulesModel.Proofs.TableSem
 /-! Tie T2 (NullOperation and BoolOperation): shapes of the methods as read from the Go source by the translator -/
 namespace Rules.Tie
 theorem OpsNullBool_keys : (rowsOf ["NullOperation.", "BoolOperation."] Generated.opTable).map (·.1) = (rowsOf ["NullOperation.", "BoolOperation."] Expected.opTable).map (·.1) := by decide +kernel
 theorem OpsNullBool_tie : (rowsOf ["NullOperation.", "BoolOperation."] Generated.opTable).all (rowOK Expected.opTable) = true := by decide +kernel
+/-- semantic form: each recognised row parses to the code whose meaning `TableSem.opTable_sem` proves to be the model's function -/
+theorem OpsNullBool_sem : TableSem.codesOK Generated.opTable [.null, .bool] = true := by decide +kernel
 end Rules.Tie
